@@ -1,3 +1,4 @@
+import RagcModel.Props.C20
 import RagcModel.Lemmas.Segment
 /-!
 C10 — segmentation tiles each contig with exact k-base overlaps at splitters.
@@ -492,6 +493,35 @@ theorem boundary_kmers_window_rust (ws : Bool) (contig : List UInt8) (isSplitter
 -- tracker for which window-exactness holds by `rfl`, and `boundary_kmers_state_rust` gives the
 -- unconditional form for `Kmer`.
 example : splitConcrete true exContig exSpl 3 = some exSegsWs := ex_ws
+
+/-- **Closed form** (C10 + C20): the hypothesis of `boundary_kmers_window_rust` is discharged by
+    C20's `slide_canonical`. For both Rust functions and every `1 ≤ k ≤ 32`: every non-final segment
+    ends with `k` bases (all ACGT), and the canonical k-mer of exactly those `k` bases, computed from
+    scratch (`Ragc.Kmer.canon`: the smaller of the forward and the reverse-complement packing), is
+    the segment's recorded back k-mer, the next segment's front k-mer, and a member of the splitter
+    set. -/
+theorem boundary_kmers_canonical (ws : Bool) (contig : List UInt8) (isSplitter : UInt64 → Bool) (k : Nat)
+    (hk : 1 ≤ k) (hk32 : k ≤ 32) (segs : List Segment)
+    (h : splitConcrete ws contig isSplitter k = some segs)
+    (pre post : List Segment) (a b : Segment) (hsegs : segs = pre ++ a :: b :: post) :
+    let w := a.data.drop (a.data.length - k)
+    w.length = k ∧ (∀ x ∈ w, x ≤ 3) ∧
+      a.backKmer = Ragc.Kmer.canon (w.map UInt8.toUInt64) ∧
+      b.frontKmer = Ragc.Kmer.canon (w.map UInt8.toUInt64) ∧
+      isSplitter (Ragc.Kmer.canon (w.map UInt8.toUInt64)) = true := by
+  refine boundary_kmers_window_rust ws contig isSplitter k hk hk32
+    (fun w => Ragc.Kmer.canon (w.map UInt8.toUInt64)) ?_ segs h pre post a b hsegs
+  intro p w hw hb
+  rw [List.map_append]
+  have hv : Ragc.Kmer.Valid (w.map UInt8.toUInt64) := by
+    intro x hx
+    rcases List.mem_map.mp hx with ⟨y, hy, rfl⟩
+    have := hb y hy
+    exact UInt64.le_iff_toNat_le.mpr (by
+      have h3 : y.toNat ≤ 3 := UInt8.le_iff_toNat_le.mp this
+      simpa using h3)
+  exact (Ragc.Props.C20.slide_canonical k hk hk32 (p.map UInt8.toUInt64) (w.map UInt8.toUInt64) hv
+    (by simpa using hw)).1
 
 theorem first_front_missing_rust (ws : Bool) (contig : List UInt8) (isSplitter : UInt64 → Bool) (k : Nat)
     (hk : 1 ≤ k) (hk32 : k ≤ 32) (segs : List Segment)
